@@ -13,6 +13,7 @@ driver_of() {
   case "$1" in
     C06|C07|C11) echo nav ;;
     C01|C09|C12|C16) echo api ;;
+    C02) echo verify ;;
     *) echo "" ;;
   esac
 }
@@ -24,6 +25,10 @@ build() {
   local drv=$1 B=$V/build/$1
   mkdir -p $B
   local CF="-O1 -g -DBINSON_PARSER_WITH_PRINT -I$REPO/include"
+  local SANFLAGS="$SANFLAGS"
+  case $drv in
+    verify) CF="-O2 -g -DBINSON_PARSER_WITH_PRINT -I$REPO/include"; SANFLAGS="" ;;   # pure verdict comparison, 10^8 evaluations: no sanitizer
+  esac
   gcc -std=c99 $CF $SANFLAGS -c $REPO/src/binson_parser.c -o $B/binson_parser.o || return 2
   gcc -std=c99 $CF $SANFLAGS -c $REPO/src/binson_writer.c -o $B/binson_writer.o || return 2
   gcc -std=gnu11 -Wall -Wno-unused-function -Wno-format-truncation $CF $SANFLAGS -DVF_ROOT=\"$V\" $V/checks/$drv.c $B/binson_parser.o $B/binson_writer.o -o $B/$drv -lm || return 2
